@@ -131,7 +131,7 @@ class TArr:
                 if getattr(x, "advanced", True):
                     view = False
                 if shape is not None:
-                    shape[axis] = getattr(x, "length", None)
+                    shape[axis] = len(x) if isinstance(x, (list, tuple)) else getattr(x, "length", None)
                 axis += 1
         while toks and toks[-1] == ("all",):
             toks.pop()
